@@ -27,44 +27,44 @@ import (
 //	VERIF_WALL    wall-clock budget in seconds for this worker (0 = none)
 
 type violationOut struct {
-	Sig      string        `json:"sig"`
-	Msg      string        `json:"msg"`
-	Seed     uint64        `json:"seed"`
-	Run      uint64        `json:"run"`
-	Step     int           `json:"step"`
-	Tape     []uint32      `json:"tape"`
-	OrigLen  int           `json:"orig_tape_len"`
-	ShrinkEx int           `json:"shrink_executions"`
-	Stable   string        `json:"stability"`
-	Digest   string        `json:"digest"`
-	Plan     interface{}   `json:"plan,omitempty"`
-	Events   []sim.Event   `json:"events,omitempty"`
-	Notes    []string      `json:"notes,omitempty"`
-	Count    int           `json:"count"`
+	Sig      string         `json:"sig"`
+	Msg      string         `json:"msg"`
+	Seed     uint64         `json:"seed"`
+	Run      uint64         `json:"run"`
+	Step     int            `json:"step"`
+	Tape     []uint32       `json:"tape"`
+	OrigLen  int            `json:"orig_tape_len"`
+	ShrinkEx int            `json:"shrink_executions"`
+	Stable   string         `json:"stability"`
+	Digest   string         `json:"digest"`
+	Plan     interface{}    `json:"plan,omitempty"`
+	Events   []sim.Event    `json:"events,omitempty"`
+	Notes    []string       `json:"notes,omitempty"`
+	Count    int            `json:"count"`
 	Fault    *sim.FaultSpec `json:"fault_at,omitempty"`
 }
 
 type workerOut struct {
-	Prop       string                 `json:"prop"`
-	Seed       uint64                 `json:"seed"`
-	From       uint64                 `json:"from"`
-	Next       uint64                 `json:"next"`
-	To         uint64                 `json:"to"`
-	Runs       int                    `json:"runs"`
-	Steps      int64                  `json:"steps"`
-	SimTimeUs  int64                  `json:"sim_time_us"`
-	Digests    []string               `json:"digests"`
-	Nontrivial []string               `json:"nontrivial_digests"`
-	Faults     map[string]int         `json:"faults"`
-	Probes     map[string]int         `json:"probes"`
-	Capped     map[string]int         `json:"capped"`
-	LibEvents  map[string]int         `json:"lib_events"`
-	Violations []*violationOut        `json:"violations"`
+	Prop       string                   `json:"prop"`
+	Seed       uint64                   `json:"seed"`
+	From       uint64                   `json:"from"`
+	Next       uint64                   `json:"next"`
+	To         uint64                   `json:"to"`
+	Runs       int                      `json:"runs"`
+	Steps      int64                    `json:"steps"`
+	SimTimeUs  int64                    `json:"sim_time_us"`
+	Digests    []string                 `json:"digests"`
+	Nontrivial []string                 `json:"nontrivial_digests"`
+	Faults     map[string]int           `json:"faults"`
+	Probes     map[string]int           `json:"probes"`
+	Capped     map[string]int           `json:"capped"`
+	LibEvents  map[string]int           `json:"lib_events"`
+	Violations []*violationOut          `json:"violations"`
 	Samples    []map[string]interface{} `json:"samples"`
-	WallS      float64                `json:"wall_s"`
-	Overruns   int                    `json:"tape_overruns"`
-	HarnessErr []string               `json:"harness_errors"`
-	RunDigests []string               `json:"run_digests,omitempty"`
+	WallS      float64                  `json:"wall_s"`
+	Overruns   int                      `json:"tape_overruns"`
+	HarnessErr []string                 `json:"harness_errors"`
+	RunDigests []string                 `json:"run_digests,omitempty"`
 }
 
 func envU(name string, def uint64) uint64 {
@@ -472,13 +472,13 @@ func classifyLibEvent(e string) string {
 }
 
 type replayFile struct {
-	Property string      `json:"property"`
-	Sig      string      `json:"signature"`
-	Tier     string      `json:"tier"`
-	Tape     []uint32    `json:"tape"`
-	Digest   string      `json:"digest"`
-	Msg      string      `json:"message"`
-	Plan     interface{} `json:"plan"`
+	Property string         `json:"property"`
+	Sig      string         `json:"signature"`
+	Tier     string         `json:"tier"`
+	Tape     []uint32       `json:"tape"`
+	Digest   string         `json:"digest"`
+	Msg      string         `json:"message"`
+	Plan     interface{}    `json:"plan"`
 	Fault    *sim.FaultSpec `json:"fault_at,omitempty"`
 	Run      uint64         `json:"run"`
 }
